@@ -253,7 +253,7 @@ pub struct Plan {
     /// single faults: (call, injectable index i) -> errno
     pub faults: HashMap<(usize, usize), i32>,
     /// sequence faults: every occurrence of syscall `nr` (first `count` of them) gets errno
-    pub seq: Vec<(String, i32, usize)>,
+    pub seq: Vec<(String, i32, usize, usize)>,
     /// fd exhaustion: every fd-creating syscall from injectable index `from` on fails with errno
     pub exhaust: Option<(usize, usize, i32)>,
 }
@@ -457,8 +457,8 @@ impl Worker {
                         inject = Some(e);
                     }
                 }
-                for (k, (nm, e, count)) in rec.plan.seq.iter().enumerate() {
-                    if nm == ent.name && rec.seq_used[k] < *count {
+                for (k, (nm, e, count, cj)) in rec.plan.seq.iter().enumerate() {
+                    if *cj == j && nm == ent.name && rec.seq_used[k] < *count {
                         // only syscalls against the tree (dfd class tree) take part in sequences
                         if ent.ev.get("dfd_class").and_then(|v| v.as_str()) == Some("tree") {
                             rec.seq_used[k] += 1;
@@ -811,7 +811,7 @@ impl Shard {
                     plan.faults.insert((j, i as usize), e);
                 } else if let Some(nm) = f.get("nr").and_then(|v| v.as_str()) {
                     let count = f.get("count").and_then(|v| v.as_u64()).unwrap_or(1) as usize;
-                    plan.seq.push((nm.to_string(), e, count));
+                    plan.seq.push((nm.to_string(), e, count, j));
                 } else if let Some(from) = f.get("from").and_then(|v| v.as_u64()) {
                     plan.exhaust = Some((j, from as usize, e));
                 }
